@@ -67,3 +67,20 @@ Example C12_ex :
   [(bs "TimeZone", bs "UTC"); (bs "server_encoding", bs "UTF8"); (bs "client_encoding", bs "UTF8");
    (bs "server_version", bs "15"); (bs "is_superuser", bs "off"); (bs "session_authorization", bs "zed")].
 Proof. vm_compute. reflexivity. Qed.
+
+(* ---------- the whole connection against the executable oracle ---------- *)
+Require Import Wire.RobustFacts Wire.Case Spec.Oracles Spec.OracleFacts Spec.OracleFactsStartup.
+
+(* For every case the harness can script whose configured parameter map has distinct keys
+   (a Go map always has): the log of the model passes [oracle_C12] — a malformed or
+   cancelled startup gets no reply and no callback; otherwise the ParameterStatus
+   messages carry pairwise distinct keys, are exactly the expected set (the forced
+   entries with this connection's user, plus every configured entry not overridden),
+   form one contiguous block right after the authentication messages, and the next
+   message is the first ReadyForQuery. *)
+Theorem C12_model_satisfies_oracle : forall sc,
+  keys_distinct (sc_params sc) = true ->
+  (forall v after rest, start (cfg_of_case sc) (sc_raw sc) = Some (v, after, rest) -> v <> version_ssl) ->
+  oracle_C12 sc (run_case sc) = true.
+Proof. exact oracle_C12_model. Qed.
+Print Assumptions C12_model_satisfies_oracle.
